@@ -919,7 +919,13 @@ class TaskGroup(abc.TaskGroup):
                     if not isinstance(exc, CancelledError):
                         self._exceptions.append(exc)
 
-                    if not self.cancel_scope._effectively_cancelled:
+                        # A failed child always cancels the group's own scope (like a
+                        # failure of the body does), so that the remaining tasks stay
+                        # cancelled even if an enclosing scope's cancellation is later
+                        # hidden from the group by a shield
+                        if not self.cancel_scope.cancel_called:
+                            self.cancel_scope.cancel()
+                    elif not self.cancel_scope._effectively_cancelled:
                         self.cancel_scope.cancel()
                 else:
                     task_status_future.set_exception(exc)
